@@ -106,9 +106,28 @@ class Translator:
         self.names: dict[str, int] = {}
         for _, c in self.classes:
             self.visit(c)
+        self.intern_all()
+
+    def intern_all(self):
+        """ids are assigned in sorted order, so the Lean side can check injectivity of the
+        interning by one linear strictly-ascending pass"""
+        import kio.schema.index as kindex
+
+        pool = set()
+        for c in self.order:
+            pool.add(c.__name__)
+            for f in dataclasses.fields(c):
+                pool.add(f.name)
+        for name, _ in kioload.walk_schema_modules():
+            pool.add(name.split(".")[2])
+        pool.update(kindex.api_key_map.values())
+        pool.update(kindex.schema_name_map.keys())
+        self.names = {n: i for i, n in enumerate(sorted(pool))}
 
     def name_id(self, s: str) -> int:
-        return self.names.setdefault(s, len(self.names))
+        if s not in self.names:
+            raise RuntimeError(f"name {s!r} was not interned")
+        return self.names[s]
 
     def deps(self, c):
         out = []
@@ -216,6 +235,164 @@ class Translator:
         return f"def c{self.idx[c]} : Schema := .mk {self.name_id(c.__name__)} {flex} {rh} [\n    {fs}]"
 
 
+
+ETYPE = {"request": ".request", "response": ".response", "header": ".header", "data": ".data", "nested": ".nested"}
+
+
+def lean_bool(b) -> str:
+    return "true" if b else "false"
+
+
+def lean_opt(x, f=str) -> str:
+    return "none" if x is None else f"(some {f(x)})"
+
+
+def lean_chars(sv: str) -> str:
+    return "[" + ",".join(str(ord(ch)) for ch in sv) + "]"
+
+
+IMMUTABLE_LEAVES = None
+
+
+def immutable_annotation(tp) -> bool:
+    """only tuples (never lists/dicts/sets) of immutable leaves or dataclasses"""
+    import datetime as _dt
+    import enum as _enum
+
+    origin = typing.get_origin(tp)
+    if origin in (types.UnionType, typing.Union):
+        return all(a is type(None) or immutable_annotation(a) for a in typing.get_args(tp))
+    if origin is tuple:
+        args = typing.get_args(tp)
+        return len(args) == 2 and args[1] is Ellipsis and immutable_annotation(args[0])
+    if origin is not None:
+        return False
+    if dataclasses.is_dataclass(tp):
+        return True      # checked on its own (every class is in the table)
+    return isinstance(tp, type) and issubclass(
+        tp, (int, float, str, bytes, bool, uuid.UUID, _dt.timedelta, _dt.datetime, _enum.Enum, type(None)))
+
+
+def gen_info(tr):
+    import importlib
+
+    import kio.schema.index as kindex
+    from kio.static.constants import EntityType
+    import builtins as _b
+
+    CHUNK = 32
+    mods = kioload.walk_schema_modules()
+
+    def modkey(name):
+        parts = name.split(".")
+        return f"⟨{tr.name_id(parts[2])}, {int(parts[3][1:])}, {ETYPE[parts[4]]}⟩"
+
+    lines = ["import Kio.Model.Tables\n/-! generated by harness/translate.py — do not edit -/\n"
+             "namespace Kio.Generated\nopen Kio\n"]
+    # classes, in chunks of CHUNK
+    cls_terms = []
+    for c in tr.order:
+        key = tr.key_of[c]
+        modname = key.split(":")[0]
+        p = getattr(c, "__dataclass_params__", None)
+        if p is not None:
+            params = ("(some ⟨" + ", ".join(lean_bool(getattr(p, a)) for a in (
+                "init", "repr", "eq", "order", "unsafe_hash", "frozen", "match_args", "kw_only",
+                "slots", "weakref_slot")) + "⟩)")
+        else:
+            params = "none"
+        hs = getattr(c, "__header_schema__", None)
+        hidx = tr.idx.get(hs) if isinstance(hs, type) else None
+        has_dict = any("__dict__" in vars(k) for k in c.__mro__[:-1])
+        et = getattr(c, "__type__", None)
+        etn = et.name if isinstance(et, EntityType) else None
+        ak = getattr(c, "__api_key__", None)
+        fields = []
+        for f in dataclasses.fields(c):
+            fields.append("⟨" + ", ".join([
+                str(tr.name_id(f.name)), lean_bool(f.init), lean_bool(f.repr), lean_bool(f.compare),
+                lean_bool(f.kw_only), lean_bool(immutable_annotation(f.type)),
+                lean_bool(f.default_factory is not dataclasses.MISSING)]) + "⟩")
+        cls_terms.append(
+            "  { idx := %d, mod := %s, nameId := %d, qualnameIsName := %s, etype := %s, version := %s, "
+            "flexible := %s, apiKey := %s, headerIdx := %s, params := %s, hasSlots := %s, hasDict := %s, "
+            "hashable := %s, fields := [%s] }" % (
+                tr.idx[c], modkey(modname), tr.name_id(c.__name__), lean_bool(c.__qualname__ == c.__name__),
+                ETYPE.get(etn, ".nested") if etn else ".nested",
+                lean_int(int(getattr(c, "__version__", -1))), lean_bool(getattr(c, "__flexible__", False)),
+                lean_opt(None if ak is None else int(ak), lean_int), lean_opt(hidx),
+                params, lean_bool("__slots__" in vars(c)), lean_bool(has_dict),
+                lean_bool(getattr(c, "__hash__", None) is not None), ", ".join(fields)))
+    nchunks = 0
+    for n in range(0, max(len(cls_terms), 1), CHUNK):
+        lines.append(f"def classChunk{n // CHUNK} : List ClassInfo := [\n" + ",\n".join(cls_terms[n:n + CHUNK]) + "]\n")
+        nchunks += 1
+    lines.append("def classChunks : List (List ClassInfo) := [" + ", ".join(f"classChunk{k}" for k in range(nchunks)) + "]\n")
+    # modules grouped by package (with the top-level class and its class variables as a witness)
+    groups = {}
+    for name, mod in mods:
+        parts = name.split(".")
+        mcs = kioload.module_classes(mod)
+        cs = [tr.idx[c] for c in mcs]
+        tops = [c for c in mcs if getattr(getattr(c, "__type__", None), "name", None) == parts[4]]
+        top = tops[0] if tops else (mcs[-1] if mcs else None)
+        tak = getattr(top, "__api_key__", None)
+        ths = getattr(top, "__header_schema__", None)
+        term = ("    { key := %s, classes := [%s], top := %s, flexible := %s, apiKey := %s, headerIdx := %s }" % (
+            modkey(name), ", ".join(map(str, cs)), tr.idx[top] if top is not None else 0,
+            lean_bool(getattr(top, "__flexible__", False)),
+            lean_opt(None if tak is None else int(tak), lean_int),
+            lean_opt(tr.idx.get(ths) if isinstance(ths, type) else None)))
+        groups.setdefault(parts[2], []).append(term)
+    gterms = []
+    for gi, (api, terms) in enumerate(groups.items()):
+        lines.append(f"def apiGroup{gi} : ApiGroup := {{ api := {tr.name_id(api)}, modules := [\n" + ",\n".join(terms) + "] }\n")
+        gterms.append(f"apiGroup{gi}")
+    lines.append("def apiGroups : List ApiGroup := [" + ", ".join(gterms) + "]\n")
+    # index tables as the code has them (nested like the dicts)
+    key_terms = [f"({lean_int(int(k))}, {tr.name_id(v)})" for k, v in kindex.api_key_map.items()]
+    modnames = {n for n, _ in mods}
+    iterms = []
+    for ni, (name, vmap) in enumerate(kindex.schema_name_map.items()):
+        vterms = []
+        for ver, tmap in vmap.items():
+            leaves = []
+            for et, path in tmap.items():
+                modpath, _, qn = path.partition(":")
+                try:
+                    m = importlib.import_module(modpath)
+                    obj = getattr(m, qn, None)
+                except Exception:  # noqa: BLE001
+                    m, obj = None, None
+                mk = "none"
+                if m is not None:
+                    parts = modpath.split(".")
+                    if (len(parts) == 5 and parts[:2] == ["kio", "schema"] and parts[3][:1] == "v"
+                            and parts[3][1:].isdigit() and parts[4] in ETYPE and parts[2] in tr.names):
+                        mk = f"(some {modkey(modpath)})"
+                leaves.append("⟨%s, %s, %s⟩" % (
+                    ETYPE.get(getattr(et, "name", None), ".nested"), mk,
+                    lean_opt(tr.idx.get(obj) if isinstance(obj, type) else None)))
+            vterms.append(f"({lean_int(int(ver))}, [{', '.join(leaves)}])")
+        lines.append(f"def indexName{ni} : IndexName := {{ name := {tr.name_id(name)}, versions := [\n    "
+                     + ",\n    ".join(vterms) + "] }\n")
+        iterms.append(f"indexName{ni}")
+    lines.append("def indexNames : List IndexName := [" + ", ".join(iterms) + "]\n")
+    lines.append("def apiKeyMap : List (Int × Nat) := [" + ", ".join(key_terms) + "]\n")
+    names = sorted(tr.names, key=tr.names.get)
+    nn = 0
+    for n in range(0, max(len(names), 1), CHUNK):
+        lines.append(f"def nameChunk{n // CHUNK} : List (List Nat) := [" + ", ".join(lean_chars(x) for x in names[n:n + CHUNK]) + "]\n")
+        nn += 1
+    lines.append("def nameChunks : List (List (List Nat)) := [" + ", ".join(f"nameChunk{k}" for k in range(nn)) + "]\n")
+    lines.append("def builtinNames : List (List Nat) := [" + ", ".join(lean_chars(n) for n in sorted(dir(_b))) + "]\n")
+    lines.append("def tables : Tables := { classChunks := classChunks, apis := apiGroups, index := indexNames, "
+                 "apiKeys := apiKeyMap, nameChunks := nameChunks, builtins := builtinNames, "
+                 f"reqHeaderApi := {tr.names.get('request_header', 0)}, respHeaderApi := {tr.names.get('response_header', 0)} }}\n")
+    lines.append("end Kio.Generated\n")
+    side = {"modules": [n for n, _ in mods]}
+    return "\n".join(lines), side
+
 def write_if_changed(path: str, content: str) -> bool:
     try:
         with open(path) as fh:
@@ -274,10 +451,16 @@ def main():
         if write_if_changed(os.path.join(GEN_DIR, f"Classes{s}.lean"), "\n".join(body)):
             changed.append(f"Classes{s}")
     codes = sorted(int(m.value) for m in ErrorCode)
+
+    # ---- class / module / index information (C04, C08, C09, C13, C14, C15) -------------------
+    info_src, info_side = gen_info(tr)
+    if write_if_changed(os.path.join(GEN_DIR, "Info.lean"), info_src):
+        changed.append("Info")
     side = {
         "classes": [tr.key_of[c] for c in tr.order],
         "names": sorted(tr.names, key=tr.names.get),
         "error_codes": codes,
+        "info": info_side,
     }
     os.makedirs(CACHE, exist_ok=True)
     digest = hashlib.sha256(json.dumps(side, sort_keys=True).encode()).hexdigest()
